@@ -94,6 +94,19 @@ theorem uniformAt_spec (i : Nat) (rows : List (List Cell)) (h : uniformAt i rows
 theorem cells_length (r : Run) : (cells r).length = r.ident.length + 2 := by
   simp [cells]
 
+/-! ### the sort key order: a total preorder (lexicographic on lists of strings, strings by code point) -/
+
+theorem keyLe_iff (a b : Run) : keyLe a b = true ↔ sortKey a ≤ sortKey b := by
+  simp only [keyLe, Bool.not_eq_true', decide_eq_false_iff_not, List.not_lt]
+
+theorem keyLe_trans (a b c : Run) (h1 : keyLe a b = true) (h2 : keyLe b c = true) : keyLe a c = true := by
+  rw [keyLe_iff] at *
+  exact List.le_trans h1 h2
+
+theorem keyLe_total (a b : Run) : (keyLe a b || keyLe b a) = true := by
+  rw [Bool.or_eq_true, keyLe_iff, keyLe_iff]
+  exact List.le_total _ _
+
 /-! ### rounding -/
 
 theorem round_cases (q : Rat) :
